@@ -275,7 +275,10 @@ theorem C08_spec_most_recent (T : Bytes) (ps : List Pub) :
   specRets_char T ps
 
 /-- Histories.  From the initial state, along ANY sequence of moves - events
-that carry no application message (CONNECT, SUBSCRIBE, UNSUBSCRIBE, acks, pings,
+that carry no application message (a first packet without client identifier or that is
+no CONNECT - a CONNECT with a client identifier may end an existing connection of that
+client, MQTT-3.1.4-2, and publish its will: histories with such events are covered by
+`C08_refines_reference` -, SUBSCRIBE, UNSUBSCRIBE, acks, pings,
 in-process Subscribe/Unsubscribe: `Act.ev`) interleaved with acceptances of
 messages on good valid topic names (`Act.pub`: `onPublish`) - the invariant
 holds and the retained trie holds exactly the specification's store for the
@@ -290,7 +293,7 @@ theorem C08_history_partial (acts : List Act) (hok : ∀ a ∈ acts, a.ok = true
 /-- non-vacuity: connect, retain "a" twice, subscribe, clear "a", retain "b", ping -/
 example :
     let pub (t pl : Bytes) : Act := .pub ⟨{ qos := 1, retain := true, topic := t, pktid := 4, payload := pl }, false⟩
-    let acts : List Act := [.ev (exConnect 1 [97]), pub [97] [1], pub [97] [2], .ev (.packet 1 (.subscribe 1 [([35], 1)])),
+    let acts : List Act := [.ev (exConnect 1 []), pub [97] [1], pub [97] [2], .ev (.packet 1 (.subscribe 1 [([35], 1)])),
                             pub [97] [], pub [98] [3], .ev (.packet 1 .pingreq)]
     (∀ a ∈ acts, a.ok = true) ∧ specRets [] (pubsOf acts) = [⟨[98], 1, [3]⟩] ∧
     (absR (acts.foldl actStep {}).topics.rroot).map retOf = [([[98]], ⟨[98], 1, [3]⟩)] := by
